@@ -1803,6 +1803,9 @@ func c09(r *h.Result, rng *h.Rng, tier string, replay string) error {
 	if err := c9Engines(r, rng.Fork(), map[bool]int{true: 500, false: 6000}[tier == "quick"], nil); err != nil {
 		return err
 	}
+	if err := c9Refusals(r); err != nil {
+		return err
+	}
 	if err := c9EnginesMetric(r, rng.Fork(), map[bool]int{true: 400, false: 5000}[tier == "quick"], nil); err != nil {
 		return err
 	}
